@@ -233,4 +233,54 @@ theorem good_padMask (rows cols : Nat) (mask : List Bool) (r : Pt)
   simp only [maskAt, h5, Bool.and_true, decide_eq_true_eq]
   omega
 
+/-! ### the first point of a border -/
+
+theorem follow_extends (W : Nat) (start startNb : Pt) :
+    ∀ (fuel : Nat) (m : List Int) (cur prevNb : Pt) (border : List Pt) (m' : List Int)
+      (border' : List Pt),
+      follow W start startNb fuel m cur prevNb border = .ok (m', border') →
+      ∃ l, border' = l ++ border := by
+  intro fuel
+  induction fuel with
+  | zero => intro m cur prevNb border m' border' h; simp [follow] at h
+  | succ fuel ih =>
+    intro m cur prevNb border m' border' h
+    simp only [follow] at h
+    split at h
+    · simp only [Res.ok.injEq, Prod.mk.injEq] at h
+      obtain ⟨_, rfl⟩ := h
+      split
+      · exact ⟨[cur], rfl⟩
+      · exact ⟨[], rfl⟩
+    · split at h
+      · cases h
+      · obtain ⟨l, hl⟩ := ih _ _ _ _ _ _ h
+        split at hl
+        · exact ⟨l ++ [cur], by rw [hl]; simp⟩
+        · exact ⟨l, hl⟩
+
+theorem follow_first (W : Nat) (start startNb : Pt) (fuel : Nat) (m : List Int) (prevNb : Pt)
+    (m' : List Int) (border' : List Pt) (hpush : (markStep m W start).2 = true)
+    (h : follow W start startNb fuel m start prevNb [] = .ok (m', border')) :
+    border'.reverse.head? = some start := by
+  cases fuel with
+  | zero => simp [follow] at h
+  | succ fuel =>
+    simp only [follow, hpush, if_true] at h
+    split at h
+    · simp only [Res.ok.injEq, Prod.mk.injEq] at h
+      obtain ⟨_, rfl⟩ := h
+      rfl
+    · split at h
+      · cases h
+      · obtain ⟨l, hl⟩ := follow_extends W start startNb _ _ _ _ _ _ _ h
+        rw [hl]; simp
+
+theorem markStep_pushes {m : List Int} {W : Nat} {p : Pt} (h : getM m W p = 1) :
+    (markStep m W p).2 = true := by
+  unfold markStep
+  split
+  · rfl
+  · rfl
+
 end RtenVerif.Contours
